@@ -8,18 +8,21 @@ import itertools
 from harness import gen, pools
 
 
-def accepted_paths(run, rng, maxlen, nenc, nvar):
-    behs = gen.behaviours('Gen_Writer', {'MaxLen': maxlen, 'MaxRej': 0, 'NEnc': nenc, 'NVar': nvar}, run=run)
+def accepted_paths(run, rng, maxlen, nenc, nvar, content_enc='TRUE'):
+    behs = gen.behaviours('Gen_Writer', {'MaxLen': maxlen, 'MaxRej': 0, 'NEnc': nenc, 'NVar': nvar, 'ContentEnc': content_enc}, run=run)
     return behs
 
 
-def walks(run, rng, n, depth, maxrej, nenc=5, nvar=3, seed_off=0):
-    return gen.behaviours('Gen_Writer', {'MaxLen': depth, 'MaxRej': maxrej, 'NEnc': nenc, 'NVar': nvar},
+def walks(run, rng, n, depth, maxrej, nenc=5, nvar=3, seed_off=0, content_enc='TRUE'):
+    return gen.behaviours('Gen_Writer', {'MaxLen': depth, 'MaxRej': maxrej, 'NEnc': nenc, 'NVar': nvar, 'ContentEnc': content_enc},
                           simulate=n, depth=depth + 1, seed=run.seed + 11 + seed_off, run=run)
 
 
-def conc(beh, rng, encs=None, rich=True):
-    return [pools.conc_call(c['op'], c['e'], (c['v'] if rich else 0), rng, encs=encs) for c in beh]
+def conc(beh, rng, encs=None, rich=True, vary=False):
+    """vary: ignore the behaviour's variant index and draw one per call (used when
+    the behaviours were enumerated with NVar = 0 to keep the enumeration small)."""
+    return [pools.conc_call(c['op'], c['e'], (rng.choice([0, 1, 2, 3]) if vary else (c['v'] if rich else 0)),
+                            rng, encs=encs) for c in beh]
 
 
 def one_section_product(rng, quick):
